@@ -162,7 +162,7 @@ def gen_cases(ctx):
         yield dict(kind='shards', sizes=sizes, single=(li == 0 and (n + k) % 2 == 0), path=[], k=k,
                    idxs=list(range(k)), extra_off=1)
   # ---- depth 2: every parent shard (with offset 0 and 1) x every k2
-  N2, K2 = (9, 10) if quick else (12, 14)
+  N2, K2 = (9, 9) if quick else (12, 14)
   for n in range(0, N2 + 1):
     for k1 in range(1, K2 + 1):
       for i1 in range(k1):
@@ -296,19 +296,32 @@ def _state_list(st):
   return out
 
 
-def _ds_core(ds, cap):
+def compact(xs):
+  """Canonical compact form of an element list (same as Driver/Shard.lean `compact`)."""
+  if xs and xs == list(range(xs[0], xs[0] + len(xs))):
+    return {'from': xs[0], 'n': len(xs)}
+  return xs
+
+
+def expand(c):
+  return list(range(c['from'], c['from'] + c['n'])) if isinstance(c, dict) else c
+
+
+def _ds_core(ds, cap, with_state=True):
   try:
     ln = len(ds)
   except Exception as e:  # pylint: disable=broad-except
     ln = err_kind(e)
-  return dict(start=ds.start, end=ds.end, len=ln, state=_state_list(ds.state),
-              elems=[int(x) for x in itertools.islice(iter(ds), cap)])
+  o = dict(start=ds.start, end=ds.end, len=ln, elems=compact([int(x) for x in itertools.islice(iter(ds), cap)]))
+  if with_state:
+    o['state'] = _state_list(ds.state)
+  return o
 
 
 def _ds_obs(root, ds, cap):
   o = _ds_core(ds, cap)
   try:
-    o['rt'] = _ds_core(root.from_state(ds.state), cap)
+    o['rt'] = _ds_core(root.from_state(ds.state), cap, with_state=False)
   except Exception as e:  # pylint: disable=broad-except
     o['rt'] = dict(err=err_kind(e))
   return o
@@ -458,16 +471,16 @@ def path_ok(n, path):
 def _check_ds(name, o, want):
   if 'err' in o:
     return f"{name}: raised {o['err']}"
-  if o['elems'] != want:
-    return f"{name}: elements {o['elems']} != {want}"
+  if expand(o['elems']) != want:
+    return f"{name}: elements {expand(o['elems'])} != {want}"
   if o['len'] != len(want):
     return f"{name}: len() = {o['len']} but it has {len(want)} elements"
   rt = o.get('rt')
   if rt is not None:
     if 'err' in rt:
       return f"{name}: from_state(state) raised {rt['err']}"
-    if rt['elems'] != want or rt['len'] != len(want):
-      return f"{name}: rebuilt from its state it yields {rt['elems']} (len {rt['len']}), expected {want}"
+    if expand(rt['elems']) != want or rt['len'] != len(want):
+      return f"{name}: rebuilt from its state it yields {expand(rt['elems'])} (len {rt['len']}), expected {want}"
     if (rt['start'], rt['end']) != (o['start'], o['end']):
       return f"{name}: rebuilt interval {(rt['start'], rt['end'])} != {(o['start'], o['end'])}"
   return None
@@ -490,15 +503,16 @@ def oracle_shards(case, obs):
     o0 = by_i[i][0]
     if 'err' in o0:
       return f'shard {i}/{k}: raised {o0["err"]}'
-    size = len(o0['elems'])
+    e0 = expand(o0['elems'])
+    size = len(e0)
     for off, o in enumerate(by_i[i]):
       if off > size:
         break
-      w = _check_ds(f'shard {i}/{k} offset {off}', o, o0['elems'][off:])
+      w = _check_ds(f'shard {i}/{k} offset {off}', o, e0[off:])
       if w:
         return w
   if good == list(range(k)):
-    pieces = [by_i[i][0]['elems'] for i in good]
+    pieces = [expand(by_i[i][0]['elems']) for i in good]
     cat = [x for p in pieces for x in p]
     if cat != base:
       return f'shards 0..{k - 1} concatenate to {cat}, the source is {base}'
@@ -511,8 +525,8 @@ def oracle_shards(case, obs):
       return f'k > n: sizes {sizes}'
   else:
     for i in good:
-      if by_i[i][0]['elems'] != spec_shard(base, i, k):
-        return f'shard {i}/{k} = {by_i[i][0]["elems"]}, expected {spec_shard(base, i, k)}'
+      if expand(by_i[i][0]['elems']) != spec_shard(base, i, k):
+        return f'shard {i}/{k} = {expand(by_i[i][0]["elems"])}, expected {spec_shard(base, i, k)}'
   return None
 
 
